@@ -287,6 +287,21 @@ def make_body(case):
             return G.number_of_variables(), [list(c) for c in G.clauses()]
         return body
     text = mk(n, clauses).to_dimacs()
+    if case.get('layout') == 'wrapped':
+        # the same formula in another legal layout: comments in between, every
+        # literal on a line of its own, the terminating 0 on the next line, two
+        # short clauses sharing a line
+        lines = ['c a comment', 'p cnf %d %d' % (n, len(clauses)), 'c another']
+        for c in clauses:
+            for l in c:
+                lines.append(' %d ' % l)
+                if len(c) > 2:
+                    lines.append('c in the middle of a clause')
+            lines.append('0')
+        text = '\n'.join(lines) + '\n'
+    elif case.get('layout') == 'one-line':
+        text = 'p cnf %d %d\n' % (n, len(clauses)) + ' '.join(
+            ' '.join(str(l) for l in c) + ' 0' for c in clauses) + '\n'
     flags = (['-p'] if nf else []) + (['-v'] if nv else []) + (['-c'] if nc else [])
     import cnfgen.clitools.msg as msgmod
     if entry == 'cnfshuffle':
@@ -501,6 +516,13 @@ def shards(tier, seed):
     for sw in SWITCHES:
         rnd.append({'entry': 'cnfgen-T', 'n': 2, 'clauses': ASYM[1][1], 'switches': list(sw),
                     'asymmetric': True})
+    # the tools read their input: other legal layouts of the same formula
+    for layout in ('wrapped', 'one-line'):
+        for entry in ('cnfshuffle', 'cnfgen-T'):
+            for (n, cls) in [ASYM[0], SYM[0]]:
+                for sw in ([True, True, True], [False, False, False], [True, False, True]):
+                    rnd.append({'entry': entry, 'n': n, 'clauses': cls, 'switches': list(sw),
+                                'layout': layout, 'asymmetric': (n, cls) in ASYM})
     rnd.append({'entry': 'cnfgen-T', 'n': 3, 'clauses': ASYM[0][1], 'switches': [False, False, True],
                 'asymmetric': True})
     if thorough:
